@@ -114,6 +114,27 @@ func (s *scn) viewWrites(h uint64, txs []*pb.BxhTransaction, metas []*txMeta) {
 		t.TransactionHash = t.Hash()
 		w = append(w, t)
 	}
+	// fresh writers too: whatever lifecycle operation applies to each appchain and service right now, votes of every
+	// administrator on the latest proposals (each of them writes records and lists others by prefix)
+	for _, c := range s.chains {
+		for _, m := range []string{"FreezeAppchain", "ActivateAppchain", "LogoutAppchain"} {
+			w = append(w, viewTx(c.admin, constant.AppchainMgrContractAddr, m, pb.String(c.id), pb.String("reason")))
+		}
+		for _, sv := range c.services {
+			for _, m := range []string{"FreezeService", "ActivateService", "LogoutService"} {
+				w = append(w, viewTx(c.admin, constant.ServiceMgrContractAddr, m, pb.String(c.id+":"+sv.id), pb.String("reason")))
+			}
+		}
+	}
+	ps := s.proposals
+	if len(ps) > 3 {
+		ps = ps[len(ps)-3:]
+	}
+	for _, id := range ps {
+		for i := 0; i < s.cfg.World.Admins; i++ {
+			w = append(w, viewTx(s.cfg.World.adminKey(i), constant.GovernanceContractAddr, "Vote", pb.String(id), pb.String("approve"), pb.String("r")))
+		}
+	}
 	rcs := r.viewCall(w...)
 	ok := 0
 	for _, rc := range rcs {
